@@ -199,6 +199,15 @@ func (db *DB) resolveECPartInMetaBucket(crs *bbolt.Cursor, parent oid.ID, pi iec
 			continue
 		}
 		if pi.Index >= 0 {
+			// the part itself may be removed or marked while the parent is not
+			switch objectStatus(metaBkt.Cursor(), id, db.epochState.CurrentEpoch()) {
+			case statusGCMarked:
+				return oid.ID{}, apistatus.ErrObjectNotFound
+			case statusTombstoned:
+				return oid.ID{}, apistatus.ErrObjectAlreadyRemoved
+			case statusExpired:
+				return oid.ID{}, ErrObjectIsExpired
+			}
 			return id, nil
 		}
 
